@@ -77,7 +77,7 @@ func TestCheck(t *testing.T) {
 	}()
 	gspec.EnableInterruptHook()
 	ctx := context.Background()
-	n := int64(cfg.Pick(60, 80))
+	n := int64(cfg.Pick(60, 240))
 	// the last cases of every shard belong to the typed sub-workload (typed_test.go)
 	rep.Require("typed_interrupt_infos_checked", 50)
 	// ... and the cases after those to the histories driven from inside a node of another graph (inside_node_test.go)
